@@ -138,6 +138,17 @@ def inverse_with_other_gates(gates):
     return out
 
 
+def random_registers(n, rnd):
+    """Split n qubits into 2 or 3 registers (None when n < 2)."""
+    if n < 2:
+        return None
+    k = rnd.randrange(1, n)
+    if n - k >= 2 and rnd.random() < 0.4:
+        j = rnd.randrange(1, n - k)
+        return [k, j, n - k - j]
+    return [k, n - k]
+
+
 def hostile_presentation(gens, n, rnd, kind):
     """Special generating sets of the same signed group."""
     if kind == "heavy":          # greedily maximise generator weights
@@ -179,9 +190,13 @@ def strings(gens, n, plus=True):
     return out
 
 
-def qiskit_circuit(gates, n):
-    from qiskit import QuantumCircuit
-    qc = QuantumCircuit(n)
+def qiskit_circuit(gates, n, registers=None):
+    """registers: optional list of register sizes summing to n (a circuit built on several quantum registers)."""
+    from qiskit import QuantumCircuit, QuantumRegister
+    if registers:
+        qc = QuantumCircuit(*[QuantumRegister(k, "r%d" % i) for i, k in enumerate(registers)])
+    else:
+        qc = QuantumCircuit(n)
     for g in gates:
         name, qs = g[0], g[1]
         if name in ("id", "i"):
